@@ -80,6 +80,10 @@ fn cases_structural(_rng: &mut Rng, sink: &mut dyn FnMut(J) -> bool) {
             for n in [1, 2, 3, 4, 10, 40] {
                 muts.push(json!({"kind": "truncate_sig", "n": n}));
             }
+            // payload segment replaced by other JSON text that parses to the same value
+            for how in ["space_after_colon", "pretty", "trailing_space", "leading_space", "trailing_newline", "newline_between_members", "escape_name", "escape_value", "escape_digest_char", "shadow_dup", "shadow_dup_sd", "reorder", "reverse"] {
+                muts.push(json!({"kind": "payload_respell", "how": how}));
+            }
             muts.push(json!({"kind": "payload_edit", "what": "claim"}));
             muts.push(json!({"kind": "payload_edit", "what": "digest"}));
             muts.push(json!({"kind": "payload_edit", "what": "exp"}));
@@ -378,6 +382,52 @@ pub fn mutate(cfg: &Cfg, p: &Parts, m: &J) -> Option<(Parts, J)> {
             }
             let (_, p2) = cfg2.issue_parts().ok()?;
             Some((set_part(p, part, get_part(&p2, part)), own_key))
+        }
+        "payload_respell" => {
+            let text = String::from_utf8(crate::util::b64d(p.payload_b64())?).ok()?;
+            let map = p.payload()?;
+            let new_text = match m["how"].as_str()? {
+                "space_after_colon" => text.replacen("\":", "\": ", 1),
+                "pretty" => serde_json::to_string_pretty(&J::Object(map.clone())).ok()?,
+                "trailing_space" => format!("{text} "),
+                "leading_space" => format!(" {text}"),
+                "trailing_newline" => format!("{text}\n"),
+                "newline_between_members" => text.replacen(",\"", ",\n\"", 1),
+                "escape_name" => text.replacen("\"iss\"", "\"\\u0069ss\"", 1),
+                "escape_value" => text.replacen("\"sha-256\"", "\"sha\\u002d256\"", 1),
+                "escape_digest_char" => {
+                    // first character of the first digest written as a \uXXXX escape
+                    let i = text.find("[\"")? + 2;
+                    let c = text[i..].chars().next()?;
+                    format!("{}\\u{:04x}{}", &text[..i], c as u32, &text[i + c.len_utf8()..])
+                }
+                "shadow_dup" => format!("{{\"iss\":\"https://shadowed.example\",{}", &text[1..]),
+                "shadow_dup_sd" => format!("{{\"_sd\":[\"shadowed\"],{}", &text[1..]),
+                "reorder" => {
+                    let mut e: Vec<(String, J)> = map.clone().into_iter().collect();
+                    e.rotate_left(1);
+                    jstr(&J::Object(e.into_iter().collect()))
+                }
+                _ => {
+                    let mut e: Vec<(String, J)> = map.clone().into_iter().collect();
+                    e.reverse();
+                    jstr(&J::Object(e.into_iter().collect()))
+                }
+            };
+            if new_text == text {
+                return None;
+            }
+            // the rewrite must keep the parsed value (otherwise it is an ordinary payload edit)
+            let reparsed: serde_json::Map<String, J> = serde_json::from_str(&new_text).ok()?;
+            if reparsed != map {
+                return None;
+            }
+            let mut q = set_part(p, "payload", &b64e(new_text.as_bytes()));
+            // a key-binding JWT honestly signed by the holder over the REWRITTEN string
+            if let (Some(_), Some(kb)) = (&p.kb, cfg.kb()) {
+                q.kb = crate::pipeline::make_kb(&keys::holder_enc(&kb.holder), keys::holder_alg(&kb.holder), Some("kb+jwt"), &crate::pipeline::honest_kb_claims(&kb, &q.jwt, &q.disclosures));
+            }
+            Some((q, own_key))
         }
         "payload_edit" => {
             let mut pl = p.payload()?;
